@@ -16,7 +16,8 @@ import lib_comp as L
 PROPERTY = "C17"
 FN = "maltoolbox.language.compiler:MalCompiler.compile"
 SCOPE = {
-    "quick": "9 valid sources (a hand-written one using every construct, the resolvable two-category mini language, "
+    "quick": "10 valid sources (a hand-written one using every construct, a five-file layout over two sub-directories in "
+             "which ONE include string names DIFFERENT files, the resolvable two-category mini language, "
              "6 seeded random specifications; 3 of them split over a root and 1-2 included files in the same "
              "directory) x every single-token deletion, 4 random token insertions (46-token vocabulary incl. reserved "
              "words, brackets, an illegal character, an unterminated string) before every token, truncation after and "
@@ -34,7 +35,8 @@ ASSUMPTIONS = [
     "the grammar's verdict on a file = number of syntaxError callbacks of the generated malLexer/malParser (default "
     "error strategy) on that file, obtained with listeners attached by the harness",
     "a source is malformed when the mutated file is (root or included; the other files are valid printer output)",
-    "includes used here name files in the root's directory (so the unmutated program compiles on every tree)",
+    "includes of the random sources name files in the root's directory; the same-include-string layout uses sub-directories "
+    "(includes are relative to the including file)",
     "extra clause C17.rejects-unparsed-tail: rule `mal: declaration+ | EOF` has no EOF after the declarations, so the "
     "parser can stop silently before the end of the file without any syntaxError callback; such a text is not a "
     "sentence of the grammar and the result is assembled from the prefix that happened to parse. Kept as a separate "
@@ -63,9 +65,19 @@ associations {
 '''
 
 
+# two sub-directories whose files use the SAME include string for DIFFERENT files (includes are relative to the including file)
+SAME_STRING = {
+    "main.mal": '#id: "org.same"\n#version: "1.0.0"\ninclude "net/main.mal"\ninclude "host/main.mal"\n',
+    "net/main.mal": 'include "types.mal"\ncategory Net {\n  asset Router extends NetBase {\n    | route\n      -> forward\n    | forward\n  }\n}\n',
+    "net/types.mal": 'category Net {\n  abstract asset NetBase {\n    | reach\n    # shielded\n      -> reach\n  }\n}\n',
+    "host/main.mal": 'include "types.mal"\ncategory Compute {\n  asset Server extends Machine {\n    & boot\n      -> run\n    | run\n  }\n}\n',
+    "host/types.mal": 'category Compute {\n  abstract asset Machine {\n    | power\n      -> power\n  }\n}\nassociations {\n  Machine [hosts] * <-- Runs --> * [guests] Machine\n}\n',
+}
+
+
 def base_sources(tier, seed):
     """list of (name, {path: text}) -- all valid"""
-    out = [("hand", {"main.mal": HANDWRITTEN})]
+    out = [("hand", {"main.mal": HANDWRITTEN}), ("same-include-string", dict(SAME_STRING))]
     mini = L.valid_mini()
     decls = L.print_decls(mini, L.Style(0))
     out.append(("mini-1file", L.layout_files(decls, L.make_layout("single", len(decls), 0))))
